@@ -723,7 +723,11 @@ def cleanup_desc(text):
     new_txt = ''
     while text != new_txt:
         new_txt = text
-        text = text.lstrip('.')
+        no_lead_period = text.lstrip('.')
+        if no_lead_period != text and no_lead_period[:1].isdigit():
+            # Keep a decimal point (e.g. '.5 acre tract').
+            no_lead_period = '.' + no_lead_period
+        text = no_lead_period
         text = text.strip(',;:-–—\t\n ')
         # Check to see if text1 ends with each of the strings in the
         # cull_list, and if so, slice text1 down accordingly.
